@@ -169,11 +169,17 @@ def key_wrap_codes(ctx, ev0):
                     key_extra=kwc.qualname if kwc.qualname != "Encryptor._kw_alg_convert" else "")
 
 def run(ctx):
+    for entry_ in ("main", "encrypt_and_generate", "generate_info"):
+        generic.kwargs_keys_are_dests(ctx, "C06-D3g keyword reads are option destinations", "suit_generator.cmd_encrypt", entry_)
     R = ctx.report
     repo = ctx.repo
     ctx.use_files("ncs/encrypt_script.py", "ncs/basic_kms.py", "suit_generator/cmd_encrypt.py", "suit_generator/suit/security.py")
     ev0 = Evaluator(repo, inline_depth=0)
     ev2 = Evaluator(repo, inline_depth=2)
+    # no well-formed asset is refused by the splitter: iv(12) | tag(16) | ciphertext of any length, the empty plaintext included
+    generic.no_refusal_on_grid(ctx, "C06-D3f every well-formed asset is split", repo.func(ENC, "Encryptor.parse_encrypted_assets"),
+                               {"asset_bytes": [bytes(28), b"\x01" * 29, bytes(range(60)), bytes(28 + 4096)]}, inline_depth=1,
+                               what="assets iv|tag|ciphertext of 28 bytes and more (28 = empty plaintext)")
 
     # ---------------------------------------------------------------- emitted COSE_Encrypt
     fi_info, (ret_content, ret_tag, info) = encryption_info_term(ctx)
